@@ -10,10 +10,15 @@ Local Open Scope N_scope.
 Definition sum_over (n : nat) (f : chain -> N) : N := sumN (map f (seq 0 n)).
 
 Lemma sumN_app a b : sumN (a ++ b) = sumN a + sumN b.
-Proof. unfold sumN. induction a as [|x a IH]; cbn [app fold_right]; [reflexivity|]. rewrite IH. lia. Qed.
+Proof.
+  induction a as [|x a IH]; [reflexivity|]. change (sumN ((x :: a) ++ b)) with (x + sumN (a ++ b)).
+  change (sumN (x :: a)) with (x + sumN a). rewrite IH. apply N.add_assoc.
+Qed.
 
 Lemma sum_over_S n f : sum_over (S n) f = sum_over n f + f n.
-Proof. unfold sum_over. rewrite seq_S, map_app, sumN_app. cbn [map sumN fold_right plus]. unfold sumN; cbn [fold_right]. lia. Qed.
+Proof.
+  unfold sum_over. rewrite seq_S, map_app, sumN_app. cbn [map plus]. change (sumN [f n]) with (f n + 0). rewrite N.add_0_r. reflexivity.
+Qed.
 
 Lemma sum_over_ext n f g : (forall c, (c < n)%nat -> f c = g c) -> sum_over n f = sum_over n g.
 Proof.
@@ -35,6 +40,23 @@ Qed.
 Lemma sum_over_upd_other n f t B v t' : t <> t' -> sum_over n (upd_tc f t B v t') = sum_over n (f t').
 Proof. intro H. apply sum_over_ext. intros c _. apply upd_tc_other. intro X; inv X. congruence. Qed.
 
+(** moving tokens lowers only the payer's balance, by at most the amount; minting lowers nothing *)
+Lemma move_lower cs t from to a t' h :
+  bal cs t' h - (if Nat.eqb t t' && holder_eqb from h then a else 0) <= bal (move cs t from to a) t' h.
+Proof.
+  unfold move, credit, debit, set_bal, upd_bal. cbn [bal].
+  destruct (Nat.eqb_spec t t') as [<-|]; cbn [andb]; [|lia].
+  destruct (holder_eqb_spec to h) as [->|N1]; destruct (holder_eqb_spec from h) as [->|N2];
+    rewrite ?Nat.eqb_refl, ?holder_eqb_refl, ?(proj2 (holder_eqb_neq _ _) N1), ?(proj2 (holder_eqb_neq _ _) N2);
+    cbn [andb]; lia.
+Qed.
+
+Lemma mint_lower cs t r a t' h : bal cs t' h <= bal (mint cs t r a) t' h.
+Proof.
+  unfold mint, credit, set_supply, set_bal, upd_bal. cbn [bal].
+  destruct (Nat.eqb_spec t t'), (holder_eqb_spec r h); cbn [andb]; subst; lia.
+Qed.
+
 Section WithCfg.
 Variable cfg : config.
 Notation n := (nchains cfg).
@@ -43,8 +65,10 @@ Notation n := (nchains cfg).
 Definition EB (cs : cstate) : Prop := forall t, sum_over n (out_tokens cs t) <= bal cs t Endpoint.
 Definition SA (b : token -> N) (cs : cstate) : Prop := forall t, supply cs t = b t + sum_over n (bind_amt cs t).
 
-Ltac unf := unfold move, credit, debit, mint, burn, set_bal, set_supply, set_out, set_bind, set_next, set_ackst,
-  set_fees, set_effects, upd_bal, upd1 in *; cbn [bal supply out_tokens bind_amt next_seq ack_status fees effects holder_eqb] in *.
+Ltac unf := unfold mint, burn, move in *; unfold credit, debit in *;
+  unfold set_bal, set_supply, set_out, set_bind, set_next, set_ackst, set_fees, set_effects, upd_bal, upd1 in *; cbn [bal supply out_tokens bind_amt next_seq ack_status fees effects holder_eqb] in *.
+
+Ltac fin := rewrite ?Nat.eqb_refl, ?andb_false_r, ?andb_true_r; cbn [andb]; first [assumption | lia].
 
 Lemma take_tokens_backed c cs u tok amt dst cs' ori b :
   take_tokens cfg c cs (User u) tok amt dst = Some (cs', ori) -> (dst < n)%nat ->
@@ -55,23 +79,23 @@ Proof.
   - destruct ((amt * k <=? bal cs tok (User u)) && (amt * k <=? bind_amt cs tok dst) && (amt * k <=? supply cs tok)) eqn:Eg; [|discriminate].
     apply andb_true_iff in Eg as [Eg G3]. apply andb_true_iff in Eg as [G1 G2]. apply N.leb_le in G1, G2, G3.
     intros H Hd; inv H. split; intros HI t; specialize (HI t); unf.
-    + rewrite andb_false_r. exact HI.
+    + fin.
     + destruct (Nat.eqb_spec tok t) as [<-|Hne].
-      * pose proof (sum_over_upd n (bind_amt cs) tok dst (bind_amt cs tok dst - amt * k) Hd). lia.
-      * rewrite sum_over_upd_other by assumption. exact HI.
+      * pose proof (sum_over_upd n (bind_amt cs) tok dst (bind_amt cs tok dst - amt * k) Hd). fin.
+      * rewrite sum_over_upd_other by assumption. fin.
   - destruct (amt <=? bal cs tok (User u)) eqn:G1; [|discriminate]. apply N.leb_le in G1.
     intros H Hd; inv H. split; intros HI t; specialize (HI t); unf.
     + destruct (Nat.eqb_spec tok t) as [<-|Hne]; cbn [andb].
-      * pose proof (sum_over_upd n (out_tokens cs) tok dst (out_tokens cs tok dst + amt) Hd). lia.
-      * rewrite sum_over_upd_other by assumption. exact HI.
-    + exact HI.
+      * pose proof (sum_over_upd n (out_tokens cs) tok dst (out_tokens cs tok dst + amt) Hd). fin.
+      * rewrite sum_over_upd_other by assumption. fin.
+    + fin.
 Qed.
 
 Lemma take_fee_backed cs u ftok fee cs' b :
   take_fee cs (User u) ftok fee = Some cs' -> (EB cs -> EB cs') /\ (SA b cs -> SA b cs').
 Proof.
   unfold take_fee. destruct (fee <=? bal cs ftok (User u)); [|discriminate]. intro H; inv H.
-  split; intros HI t; specialize (HI t); unf; rewrite ?andb_false_r; exact HI.
+  split; intros HI t; specialize (HI t); unf; fin.
 Qed.
 
 Lemma give_tokens_backed cs p cs' d b :
@@ -83,18 +107,19 @@ Proof.
   - destruct (Nat.eqb t0 0 && is_contract r); [discriminate|].
     destruct ((p_amount p <=? out_tokens cs t0 (p_src p)) && (p_amount p <=? bal cs t0 Endpoint)) eqn:Eg; [|discriminate].
     apply andb_true_iff in Eg as [G1 G2]. apply N.leb_le in G1, G2.
-    intros H Hs; inv H. split; intros HI t; specialize (HI t); unf.
-    + destruct (Nat.eqb_spec t0 t) as [<-|Hne]; cbn [andb].
-      * pose proof (sum_over_upd n (out_tokens cs) t0 (p_src p) (out_tokens cs t0 (p_src p) - p_amount p) Hs).
-        destruct (holder_eqb r Endpoint); lia.
-      * rewrite sum_over_upd_other by assumption. exact HI.
-    + exact HI.
+    intros H Hs; inv H. split; intros HI t; specialize (HI t).
+    + cbn [set_out bal out_tokens]. pose proof (move_lower cs t0 Endpoint r (p_amount p) t Endpoint) as L.
+      destruct (Nat.eqb_spec t0 t) as [<-|Hne]; cbn [andb holder_eqb] in L.
+      * pose proof (sum_over_upd n (out_tokens cs) t0 (p_src p) (out_tokens cs t0 (p_src p) - p_amount p) Hs). lia.
+      * rewrite sum_over_upd_other by assumption. lia.
+    + unf. fin.
   - destruct (trace cfg (p_dst p) (p_src p) (p_token p)) as [[loc k]|]; [|discriminate].
-    intros H Hs; inv H. split; intros HI t; specialize (HI t); unf.
-    + destruct (Nat.eqb loc t && holder_eqb r Endpoint); lia.
-    + destruct (Nat.eqb_spec loc t) as [<-|Hne].
-      * pose proof (sum_over_upd n (bind_amt cs) loc (p_src p) (bind_amt cs loc (p_src p) + p_amount p * k) Hs). lia.
-      * rewrite sum_over_upd_other by assumption. exact HI.
+    intros H Hs; inv H. split; intros HI t; specialize (HI t).
+    + cbn [set_bind bal out_tokens]. pose proof (mint_lower cs loc r (p_amount p * k) t Endpoint) as L.
+      change (out_tokens (mint cs loc r (p_amount p * k)) t) with (out_tokens cs t). lia.
+    + unf. destruct (Nat.eqb_spec loc t) as [<-|Hne].
+      * pose proof (sum_over_upd n (bind_amt cs) loc (p_src p) (bind_amt cs loc (p_src p) + p_amount p * k) Hs). fin.
+      * rewrite sum_over_upd_other by assumption. fin.
 Qed.
 
 Lemma run_calldata_backed cs cd code cs' b :
@@ -118,17 +143,17 @@ Proof.
   destruct (p_amount p =? 0); [discriminate|]. destruct (p_ori p) as [t0|].
   - destruct (bound cfg (p_src p) (p_token p) (p_dst p)) as [[o k]|]; [|discriminate].
     intros H Hd; inv H. split; intros HI t; specialize (HI t); unf.
-    + rewrite andb_false_r. exact HI.
+    + fin.
     + destruct (Nat.eqb_spec (p_token p) t) as [<-|Hne].
-      * pose proof (sum_over_upd n (bind_amt cs) (p_token p) (p_dst p) (bind_amt cs (p_token p) (p_dst p) + p_amount p * k) Hd). lia.
-      * rewrite sum_over_upd_other by assumption. exact HI.
+      * pose proof (sum_over_upd n (bind_amt cs) (p_token p) (p_dst p) (bind_amt cs (p_token p) (p_dst p) + p_amount p * k) Hd). fin.
+      * rewrite sum_over_upd_other by assumption. fin.
   - destruct ((p_amount p <=? out_tokens cs (p_token p) (p_dst p)) && (p_amount p <=? bal cs (p_token p) Endpoint)) eqn:Eg; [|discriminate].
     apply andb_true_iff in Eg as [G1 G2]. apply N.leb_le in G1, G2.
     intros H Hd; inv H. split; intros HI t; specialize (HI t); unf.
     + rewrite andb_false_r. destruct (Nat.eqb_spec (p_token p) t) as [<-|Hne]; cbn [andb].
-      * pose proof (sum_over_upd n (out_tokens cs) (p_token p) (p_dst p) (out_tokens cs (p_token p) (p_dst p) - p_amount p) Hd). lia.
-      * rewrite sum_over_upd_other by assumption. exact HI.
-    + exact HI.
+      * pose proof (sum_over_upd n (out_tokens cs) (p_token p) (p_dst p) (out_tokens cs (p_token p) (p_dst p) - p_amount p) Hd). fin.
+      * rewrite sum_over_upd_other by assumption. fin.
+    + fin.
 Qed.
 
 Lemma ack_chain_backed cs p cs' r b :
@@ -138,7 +163,7 @@ Proof.
   destruct (fees cs (p_dst p) (p_seq p)) as [ft f].
   match goal with |- context [if ?c then _ else _] => destruct c end; [|discriminate].
   intros H Hd. apply (give_back_backed _ _ _ _ b) in H as [A1 A2]; [|exact Hd].
-  split; intro HI; [apply A1|apply A2]; intros t; specialize (HI t); unf; rewrite ?andb_false_r; exact HI.
+  split; intro HI; [apply A1|apply A2]; intros t; specialize (HI t); unf; fin.
 Qed.
 
 Lemma addfee_chain_backed cs u dst sq amt cs' b :
@@ -146,7 +171,7 @@ Lemma addfee_chain_backed cs u dst sq amt cs' b :
 Proof.
   unfold addfee_chain. destruct (fees cs dst sq) as [ft f].
   match goal with |- context [if ?c then _ else _] => destruct c end; [|discriminate]. intro H; inv H.
-  split; intros HI t; specialize (HI t); unf; rewrite ?andb_false_r; exact HI.
+  split; intros HI t; specialize (HI t); unf; fin.
 Qed.
 
 Lemma transfer_chain_backed c cs u tok amt dst rcv cd cb ftok fee cs' p b :
